@@ -38,6 +38,7 @@ PropOf(e) ==
     [] e.a = "Truncate" -> P_Truncate(e.args.o)
     [] e.a = "SetHW" -> P_SetHW(e.args.h)
     [] e.a = "Drain" -> P_Drain(e.args.r)
+    [] e.a = "Read" -> P_Read(e.args.r, e.args.k)
     [] OTHER -> P_Same
 
 ImplOf(e) ==
@@ -50,6 +51,7 @@ ImplOf(e) ==
     [] e.a = "Reopen" -> DoReopen
     [] e.a = "NewReader" -> DoNewReader(e.args.r, e.args.s, e.args.c)
     [] e.a = "Drain" -> DoDrain(e.args.r)
+    [] e.a = "Read" -> DoRead(e.args.r, e.args.k)
     [] OTHER -> UNCHANGED <<cfg, log, segs, hw, epochs, ro, rd>>
 
 \* every fresh reader, from every start offset, returns exactly the retained
@@ -68,6 +70,8 @@ TraceNext ==
      /\ IF e.a = "Open" THEN TRUE
         ELSE /\ Chk(PropOf(e), "P", e, "step")
              /\ Chk(ImplOf(e), "I", e, "step")
+     \* no call makes the commit log panic, and a log that was closed can be opened again
+     /\ Chk(~e.crash, "P", e, "C01_NoCrash")
      /\ Chk(C01_Ordered', "P", e, "C01_Ordered")
      /\ Chk(C01_Dense', "P", e, "C01_Dense")
      /\ Chk(TypeOK', "I", e, "TypeOK")
